@@ -463,10 +463,19 @@ def gen_noop(rng, spec, cfg, closure_names, i):
     return {"op": "noop", "obj": name, "attr": attr}
 
 
+def gen_delete_free(rng, spec, cfg, closure_names, i):
+    """self_delete of an object nothing references any more (upstream: remove from the list, then self_delete)."""
+    free = [n for n in spec["order"] if spec["objs"][n]["cls"] not in ("System", "UsagePattern")
+            and not S.users_of(spec, n)]
+    if not free:
+        return None
+    return {"op": "delete", "obj": rng.choice(free)}
+
+
 EDIT_MIX = [
     (gen_numeric, 34), (gen_categorical, 8), (gen_provider_switch, 2), (gen_hourly, 7), (gen_link, 10),
     (gen_new_storage, 2), (gen_list_assign, 8), (gen_assign_slice, 3), (gen_list_op, 10), (gen_group, 6), (gen_add_job, 4),
-    (gen_add_step, 3), (gen_add_up, 3), (gen_remove_up, 2), (gen_permute_ups, 2), (gen_noop, 2),
+    (gen_add_step, 3), (gen_add_up, 3), (gen_remove_up, 2), (gen_permute_ups, 2), (gen_noop, 2), (gen_delete_free, 2),
 ]
 
 
